@@ -128,8 +128,16 @@ func propC17(e *Env) {
 			if dgram {
 				// whole newline-terminated lines per datagram, 1-3 lines each
 				rest := w.total
+				first := true
 				for rest != "" {
 					k := 1 + e.Choose("io", 3)
+					if first && bulk && scheme == "unixgram" && w.id == 0 {
+						// one large datagram (unix datagram sockets carry far more than UDP's 64 KiB): 50-95
+						// lines of about 1.3 KiB, i.e. 65-125 KiB — below the 128 KiB a single read can take
+						k = 50 + e.Choose("io", 40)
+						e.Probe("unixgram_datagram_over_64KiB")
+					}
+					first = false
 					end := 0
 					for j := 0; j < k; j++ {
 						i := strings.IndexByte(rest[end:], '\n')
